@@ -99,8 +99,12 @@ inline const char* badName(unsigned b) {
 struct Res {
   uint8_t st  = 0; // 0 = skipped (an operand is not in the graph), 1 = executed
   uint8_t bad = 0;
+  uint8_t nr1 = 0; // r1 was not observed (bare removeEdge: the data of the removed edge cannot be read legally)
   uint64_t r0 = 0, r1 = 0;
 };
+inline bool sameRes(const Res& x, const Res& y) {
+  return x.st == y.st && x.r0 == y.r0 && (x.r1 == y.r1 || x.nr1 || y.nr1);
+}
 
 struct Prog {
   uint8_t nops  = 0;
